@@ -18,6 +18,7 @@ CONSTANTS
   LegacyNilLog = FALSE
   PubRest <- NoRest
   MutBatchPersistFirst = FALSE
+  MutDropLogEarly = FALSE
   MutBatchNoWait = FALSE
   MutPersistOutsideLock = TRUE
 INVARIANTS NoPanic OneUnsettled OneSenderPerPair NoSpuriousRedelivery OnlyOwnTopic BlockingReturn AfterClose NoStuckCall Complete
